@@ -22,7 +22,9 @@ use crate::program::Program;
 use crate::rng::splitmix;
 use crate::sim::{Violation, SITE_NAMES};
 
-pub const VERIF_DIR: &str = "/verif";
+pub fn verif_dir() -> String {
+    std::env::var("VERIF_HOME").unwrap_or_else(|_| "/verif".to_string())
+}
 
 #[derive(Serialize, Deserialize, Clone, Debug)]
 pub struct Found {
@@ -51,6 +53,10 @@ pub struct WorkerOut {
     pub foreign_class_counts: BTreeMap<String, u64>,
     pub samples: Vec<serde_json::Value>,
     pub log_fp: u64,
+    #[serde(default)]
+    pub fault_variants: u64,
+    #[serde(default)]
+    pub c08_cells: BTreeMap<String, u64>,
 }
 
 static CUR_IDX: AtomicU64 = AtomicU64::new(0);
@@ -99,6 +105,11 @@ fn absorb(out: &mut WorkerOut, prop: &str, idx: u64, rs: u64, p: &Program, r: &R
     }
     for (k, v) in &r.op_counts {
         *out.op_counts.entry(k.to_string()).or_insert(0) += v;
+    }
+    if prop == "C08" {
+        for (k, v) in &r.c08_cells {
+            *out.c08_cells.entry(k.clone()).or_insert(0) += v;
+        }
     }
     for (s, e) in &r.faults_fired {
         *out.fault_kinds.entry(format!("epoll_ctl_seam{}_errno{}", s, e)).or_insert(0) += 1;
@@ -164,6 +175,32 @@ fn worker(args: &[String]) -> i32 {
             }));
         }
         absorb(&mut out, prop, idx, rs, &p, &r);
+        if prop == "C15" && r.violations.is_empty() {
+            // fault enumeration: the fault-free run numbered every fault site it passed;
+            // re-run the same history once per site with exactly that site failing
+            const ERRNOS: [i32; 5] = [libc::EEXIST, libc::ENOENT, libc::EBADF, libc::EPERM, libc::ENOMEM];
+            let mut variants = Vec::new();
+            for k in 0..r.sites[0].min(48) {
+                variants.push(crate::program::Fault { site: 0, nth: k, errno: ERRNOS[(k as usize + idx as usize) % 5] });
+            }
+            for k in 0..r.sites[1].min(32) {
+                variants.push(crate::program::Fault { site: 4, nth: k, errno: 0 });
+            }
+            for f in variants {
+                if !p.faults.is_empty() {
+                    break; // this base program already carries random faults
+                }
+                let mut q = p.clone();
+                q.faults = vec![f];
+                unsafe {
+                    libc::alarm(20);
+                }
+                let r2 = run(&q, false);
+                log.add(r2.stats.callbacks);
+                out.fault_variants += 1;
+                absorb(&mut out, prop, idx, rs, &q, &r2);
+            }
+        }
     }
     unsafe {
         libc::alarm(0);
@@ -192,7 +229,7 @@ pub struct KnownFile {
 }
 
 pub fn load_known() -> KnownFile {
-    let p = format!("{}/known_findings.json", VERIF_DIR);
+    let p = format!("{}/known_findings.json", verif_dir());
     match std::fs::read_to_string(&p) {
         Ok(s) => serde_json::from_str(&s).unwrap_or_else(|e| {
             eprintln!("cannot parse {}: {}", p, e);
@@ -258,6 +295,7 @@ fn replay(path: &str) -> i32 {
 fn tier_runs(prop: &str, tier: &str) -> u64 {
     let q = match prop {
         "C16" => 60_000,
+        "C15" => 24_000,
         _ => 160_000,
     };
     match tier {
@@ -273,10 +311,10 @@ fn check(prop: &str, tier: &str) -> i32 {
     let nw: u64 = std::env::var("VERIF_WORKERS").ok().and_then(|s| s.parse().ok()).unwrap_or(16);
     println!("check property={} tier={} VERIF_SEED={} runs={} workers={}", prop, tier, base, total, nw);
     let exe = std::env::current_exe().unwrap();
-    let work = format!("{}/work", VERIF_DIR);
+    let work = format!("{}/work", verif_dir());
     std::fs::create_dir_all(&work).ok();
-    std::fs::create_dir_all(format!("{}/replays", VERIF_DIR)).ok();
-    std::fs::create_dir_all(format!("{}/evidence", VERIF_DIR)).ok();
+    std::fs::create_dir_all(format!("{}/replays", verif_dir())).ok();
+    std::fs::create_dir_all(format!("{}/evidence", verif_dir())).ok();
     let per = (total + nw - 1) / nw;
     let mut children = Vec::new();
     for w in 0..nw {
@@ -328,6 +366,9 @@ fn check(prop: &str, tier: &str) -> i32 {
         for (k, v) in w.op_counts {
             *merged.op_counts.entry(k).or_insert(0) += v;
         }
+        for (k, v) in w.c08_cells {
+            *merged.c08_cells.entry(k).or_insert(0) += v;
+        }
         for (k, v) in w.fault_kinds {
             *merged.fault_kinds.entry(k).or_insert(0) += v;
         }
@@ -342,6 +383,7 @@ fn check(prop: &str, tier: &str) -> i32 {
         merged.ops += w.ops;
         merged.dispatches += w.dispatches;
         merged.callbacks += w.callbacks;
+        merged.fault_variants += w.fault_variants;
         merged.own.extend(w.own);
         if merged.samples.len() < 3 {
             merged.samples.extend(w.samples);
@@ -369,7 +411,7 @@ fn check(prop: &str, tier: &str) -> i32 {
         let (min, ms) = minimise(&f.program, budget, &mut |p| first_violation(p).map(|v| v.class()) == Some(class.clone()));
         let r = run(&min, true);
         let v = r.violations.first().cloned().unwrap_or_else(|| f.violation.clone());
-        let fname = format!("{}/replays/{}-{}-{}.json", VERIF_DIR, prop, sanitize(class), f.run_seed);
+        let fname = format!("{}/replays/{}-{}-{}.json", verif_dir(), prop, sanitize(class), f.run_seed);
         let rf = ReplayFile {
             property: prop.to_string(),
             class: class.clone(),
@@ -418,6 +460,9 @@ fn check(prop: &str, tier: &str) -> i32 {
             "rule": format!("one evaluation = one generated program (profile {} for two runs out of three, the mixed profile 'core' for the third) executed against a real EventLoop and the reference model in lock-step; a run is non-trivial for {} if at least one oracle rule of {} was evaluated in it (not merely armed); two runs are distinct if the sequences of (rule, abstract context) evaluations of {} differ (64-bit hash of that sequence)", prop, prop, prop, prop),
             "samples": merged.samples,
             "nontrivial_runs": merged.nontrivial.len(),
+            "fault_site_variants": merged.fault_variants,
+            "reentrancy_matrix_cells_covered": merged.c08_cells.len(),
+            "reentrancy_matrix": merged.c08_cells,
             "rule_evaluations": merged.rule_evals,
             "runs_per_hour": (merged.runs as f64 / wall * 3600.0) as u64,
             "simulated_time_s": merged.sim_ns as f64 / 1e9,
@@ -446,7 +491,7 @@ fn check(prop: &str, tier: &str) -> i32 {
         "wall_s": wall,
         "violations": n_viol
     });
-    let evp = format!("{}/evidence/{}.json", VERIF_DIR, prop);
+    let evp = format!("{}/evidence/{}.json", verif_dir(), prop);
     std::fs::write(&evp, serde_json::to_string_pretty(&ev).unwrap()).unwrap();
     println!(
         "{}: {} runs, {} non-trivial ({} distinct), {} unlisted violation classes, {} known findings, {:.1}s, evidence {}",
